@@ -471,6 +471,25 @@ def FD.rebuild (s : FD) : FD := FD.ofPairs s.items
 /-- `fd.copy()` (inherited `dict.copy`): a plain dict with the same items -/
 def FD.copyItems (s : FD) : Dict Nat FVal := s.items
 
+/-! Hashes of atoms (str under hash randomisation, identity-hashed objects) are only stable inside
+    one interpreter process.  `ρ` is "how atoms hash here"; a pickle / deepcopy result may come to
+    life under another `ρ'`. -/
+
+/-- `hash(frozenset(items))` in an interpreter where atom `a` hashes as `ρ a` -/
+def hashOfIn (ρ : Nat → Nat) (d : Dict Nat FVal) : Option (List (Nat × Nat)) :=
+  if d.all (fun p => p.2.hashable) then some (canon (d.map fun p => (ρ p.1, ρ p.2.num))) else none
+
+/-- `hash(fd)` in that interpreter: the `_hash` slot wins when it is set -/
+def FD.hashIn (ρ : Nat → Nat) (s : FD) : FD × Option (List (Nat × Nat)) :=
+  match s.cache with
+  | some r => (s, r)
+  | none => ({ s with cache := some (hashOfIn ρ s.items) }, hashOfIn ρ s.items)
+
+/-- the observable the correspondence prints for a copy made after `hash(fd)`: does the clone, hashed
+    where atoms hash as `ρ'`, agree with a fresh FrozenDict built from the clone's own items? -/
+def FD.cloneHashOwn (ρ ρ' : Nat → Nat) (s : FD) : Bool :=
+  ((s.hashIn ρ).1.rebuild.hashIn ρ').2 == ((FD.ofPairs (s.hashIn ρ).1.rebuild.items).hashIn ρ').2
+
 /-- `FrozenDict.fromkeys(keys, value)` -/
 def FD.fromkeys (ks : List Nat) (v : FVal) : FD := FD.ofPairs (ks.map fun k => (k, v))
 
